@@ -207,6 +207,11 @@ fn arc_atom_table() -> Option<Arc<AtomTable>> {
 impl RawBlockTraits for AtomTable {
     #[inline]
     fn init_size() -> usize {
+        #[cfg(feature = "verif-hooks")]
+        if let Some(n) = crate::verif::atom_table_init_size() {
+            return n;
+        }
+
         ATOM_TABLE_INIT_SIZE
     }
 
@@ -492,15 +497,25 @@ impl AtomTable {
         }
 
         loop {
+            #[cfg(feature = "verif-hooks")]
+            crate::verif::atom_step("start", string, 0);
             let mut block_epoch = atom_table.inner.read();
             let mut table_epoch = block_epoch.table.read();
+            #[cfg(feature = "verif-hooks")]
+            crate::verif::atom_step("read_epochs", string, 0);
 
             if let Some(atom) = block_epoch.lookup_str(string) {
+                #[cfg(feature = "verif-hooks")]
+                crate::verif::atom_step("hit", string, atom.index);
                 return atom;
             }
+            #[cfg(feature = "verif-hooks")]
+            crate::verif::atom_step("miss", string, 0);
 
             // take a lock to prevent concurrent updates
             let update_guard = atom_table.update.lock().unwrap();
+            #[cfg(feature = "verif-hooks")]
+            crate::verif::atom_step("locked", string, 0);
 
             let is_same_allocation = RcuRef::same_epoch(&block_epoch, &atom_table.inner.read());
             let is_same_atom_list = RcuRef::same_epoch(&table_epoch, &block_epoch.table.read());
@@ -509,8 +524,12 @@ impl AtomTable {
                 // some other thread raced us between our lookup and
                 // us aquring the update lock,
                 // try again
+                #[cfg(feature = "verif-hooks")]
+                crate::verif::atom_step("retry", string, 0);
                 continue;
             }
+            #[cfg(feature = "verif-hooks")]
+            crate::verif::atom_step("recheck_ok", string, 0);
 
             let size = mem::size_of::<AtomHeader>() + string.len();
             let size = size.next_multiple_of(AtomTable::align());
@@ -530,6 +549,8 @@ impl AtomTable {
                         atom_table.inner.replace(new_alloc);
                         block_epoch = atom_table.inner.read();
                         table_epoch = block_epoch.table.read();
+                        #[cfg(feature = "verif-hooks")]
+                        crate::verif::atom_step("grow", string, 0);
                     } else {
                         break ptr;
                     }
@@ -549,9 +570,13 @@ impl AtomTable {
                     .with_tag(HeapCellValueTag::Atom as u8)
                     .get_name();
 
+                #[cfg(feature = "verif-hooks")]
+                crate::verif::atom_step("written", string, atom.index);
                 let mut table = table_epoch.clone();
                 table.insert(atom.into());
                 block_epoch.table.replace(table);
+                #[cfg(feature = "verif-hooks")]
+                crate::verif::atom_step("published", string, atom.index);
 
                 // explicit drop to ensure we don't accidentally drop it early
                 drop(update_guard);
